@@ -299,6 +299,7 @@ class EngineCampaign:
         self.sites = detsched.Sites(rfg)
         self.model_cases = []
         self.found = []   # (prop, key, what, replay)
+        self.usable = self.sites.usable      # False: the engine no longer has the statements the tracer keys on; instrumented runs are skipped
 
     def sentinel(self):
         ctx = self.ctx
@@ -312,6 +313,7 @@ class EngineCampaign:
 
     def one(self, nodes, edges, workers, max_errors, scheduler, failing, exc_kind, chooser, tag, interrupt_at=None, pause=True,
             opcodes=True, dedupe=None):
+        core.alive()
         uj_graph = build_nx(self.uj, nodes, edges)
         exc_objs = {}
         failing = set(failing)
@@ -387,6 +389,9 @@ def campaign(ctx, props):
     """Runs graphs x configurations x schedules. `props`: which properties' failures are reported by this check."""
     camp = EngineCampaign(ctx)
     camp.sentinel()
+    if not camp.usable:
+        ctx.notes["engine_campaign"] = "skipped: run_function_on_graph.py lacks statements the tracer keys on (reported as a broken sentinel)"
+        return camp
     rng = ctx.rng
     targeted(ctx, camp)
     failing_sibling_stress(ctx, camp)
@@ -434,6 +439,8 @@ def campaign(ctx, props):
 def targeted(ctx, camp):
     """Small fixed shapes that exercise the narrow windows: independent nodes with a worker-killing exception,
     fan-in with simultaneous predecessors, failure with dependents and max_errors >= 1."""
+    if not camp.usable:
+        return
     rng = ctx.rng
     shapes = [
         ("independent3", [0, 1, 2], []),
@@ -494,6 +501,8 @@ def systematic(ctx, camp, shapes=None, budget=None):
     blocks; EVERY schedule that deviates from it at exactly one decision point (any yield point = any bytecode boundary of
     run_function_on_graph.py, any alternative thread) is executed, and a sample of the schedules with two deviations.
     Every run goes through the monitors; every distinct event trace is judged by Engine.v."""
+    if not camp.usable:
+        return
     rng = ctx.rng
     shapes = shapes or [
         ("fanin2", [0, 1, 2], [(0, 2, "pos"), (1, 2, "pos")], [], "Exception", 0),
@@ -536,6 +545,8 @@ def systematic(ctx, camp, shapes=None, budget=None):
 
 def failing_sibling_stress(ctx, camp):
     """double-join with a failing independent predecessor of the second join, errors tolerated, many aggressive schedules"""
+    if not camp.usable:
+        return
     rng = ctx.rng
     nodes, edges = [0, 1, 2, 3, 4], [(0, 3, "pos"), (1, 3, "pos"), (3, 4, "pos"), (2, 4, "pos")]
     for si in range(ctx.n(120, 800)):
